@@ -152,6 +152,8 @@ def gen_case(rng):
     pol = None
     if rng.random() < 0.88:
         pol = {'k': 'policy', 'falsy': rng.random() < 0.3, 'ctor': rng.random() < 0.25}
+        if not pol['falsy'] and not pol['ctor'] and rng.random() < 0.25:
+            pol['legacy'] = True          # set_authorization_policy + set_authentication_policy (LegacySecurityPolicy)
         stmts.append(pol)
     if rng.random() < 0.55:
         stmts.append({'k': 'defperm', 'perm': rng.choice(['view', 'view', 'edit', 'ZERO', 'ZERO', 'EMPTY', 'NPR']),
@@ -275,7 +277,9 @@ def valid(case):
                     return False
                 keys.add(dk)
                 if k == 'policy':
-                    if bi or set(s) != {'k', 'falsy', 'ctor'} or not _is_bool(s['falsy']) or not _is_bool(s['ctor']):
+                    if bi or set(s) - {'legacy'} != {'k', 'falsy', 'ctor'} or not _is_bool(s['falsy']) or not _is_bool(s['ctor']):
+                        return False
+                    if 'legacy' in s and (s['legacy'] is not True or s['falsy'] or s['ctor']):
                         return False
                 elif k == 'defperm':
                     if bi or set(s) != {'k', 'perm', 'ctor'} or s['perm'] not in PERM_TOKENS or not _is_bool(s['ctor']):
@@ -529,6 +533,11 @@ def targeted_cases():
             c = _case(copy.deepcopy(st), [['edit', [0, res]]], [copy.deepcopy(rq)], cut=len(st) - 2)
             c['warm'] = [copy.deepcopy(rq)]
             out.append(c)
+    # the deprecated policy pair
+    lpol = {'k': 'policy', 'falsy': False, 'ctor': False, 'legacy': True}
+    st = [_v(1, perm='view'), _v(2, name='v'), {'k': 'defperm', 'perm': 'edit', 'ctor': False}, dict(lpol)]
+    out.append(_case(copy.deepcopy(st), [], [_rq(), _rq(vname='v')]))
+    out.append(_case(copy.deepcopy(st), [['view', [0, 0]], ['edit', [0, 0]]], [_rq(), _rq(vname='v')]))
     # constructor arguments
     for falsy in (False, True):
         for dp in ('view', 'ZERO'):
